@@ -1036,7 +1036,12 @@ func (ctx *Context) evaluate() {
 				return
 			}
 
-			num, _, _, detailText := RollWoD(ctx.RandSrc, v.MustReadInt(), wodState.pool, wodState.points, wodState.threshold, wodState.isGE, getRollMode())
+			// 每一轮的骰数都计入算力，加骰线过低或处于最大值模式时轮数没有上界
+			num, _, _, detailText, ok := rollWoD(ctx.RandSrc, v.MustReadInt(), wodState.pool, wodState.points, wodState.threshold, wodState.isGE, getRollMode(),
+				func(n IntType) bool { return !numOpCountAdd(n) })
+			if !ok {
+				return
+			}
 			ret := NewIntVal(num)
 			details[len(details)-1].Ret = ret
 			details[len(details)-1].Text = detailText
@@ -1057,7 +1062,11 @@ func (ctx *Context) evaluate() {
 			if !doubleCrossCheck(ctx, v.MustReadInt(), dcState.pool, dcState.points) {
 				return
 			}
-			success, _, _, detailText := RollDoubleCross(ctx.RandSrc, v.MustReadInt(), dcState.pool, dcState.points, getRollMode())
+			success, _, _, detailText, ok := rollDoubleCross(ctx.RandSrc, v.MustReadInt(), dcState.pool, dcState.points, getRollMode(),
+				func(n IntType) bool { return !numOpCountAdd(n) })
+			if !ok {
+				return
+			}
 			ret := NewIntVal(success)
 			details[len(details)-1].Ret = ret
 			details[len(details)-1].Text = detailText
